@@ -282,6 +282,14 @@ func featC07(m *gen.Mixed, ts *gen.TieSetup, p *modelParams) {
 	fundMany(m, ts.Whale, first, ks, func(i int) uint64 { return 20_000 * 1e8 })
 	tip := e.PIP10 + 60
 	amounts := []uint64{1, 2, 3, 7, 10, 99, 1000, 1e8, 123456789, 1e10, 5e11}
+	// ungraded snapshot heights from 2.0.2 on (the snapshot code looks up older rates there) with conversions waiting
+	for h := ((e.V202 + 143) / 144) * 144; h < tip; h += 144 {
+		if rng.Intn(3) != 0 {
+			delete(m.ForceGraded, h)
+			m.ForceUngraded[h] = true
+			m.ForceGraded[h-1] = rng.Intn(2) == 0
+		}
+	}
 	for h := first + 2; h < tip; h++ {
 		h := h
 		m.Schedule(h, func(v *gen.View, s *forge.BlockSpec) {
@@ -454,6 +462,11 @@ func featC14(m *gen.Mixed, ts *gen.TieSetup, p *modelParams) {
 		per = 3 * (648_000 * 1e8) / uint64(nh)
 	}
 	fundMany(m, ts.Whale, first, ks, func(i int) uint64 { return per + uint64(i%7) })
+	// three holders tied for the TOP stake (the dust of an oversubscribed payout goes to one of them, by rule)
+	topKs := keys("c14-top", p.Seed, 3)
+	if p.Seed%3 != 0 {
+		fundMany(m, ts.Whale, first+1, topKs, func(i int) uint64 { return 5_000_000 * 1e8 })
+	}
 	firstSnap := ((e.V20 + 143) / 144) * 144
 	sink := forge.NewKey(fmt.Sprintf("c14-sink-%d", p.Seed)).FA()
 	// movements between snapshots: out, in, round trip, new arrival
